@@ -62,6 +62,7 @@ pub fn ext_variants() -> Vec<(String, Vec<u64>, bool, Vec<u8>, bool)> {
     add("san otherName INTEGER value", OID_SAN, false, seq(&[ctx_cons(0, &cat(&[oid(&[1, 2, 3]), ctx_cons(0, &uint(&[5]))]))]), true);
     add("san otherName without explicit tag", OID_SAN, false, seq(&[ctx_cons(0, &cat(&[oid(&[1, 2, 3]), string(T_UTF8, b"x")]))]), true);
     add("san otherName 128-bit arc", OID_SAN, false, seq(&[ctx_cons(0, &cat(&[wide_oid(), ctx_cons(0, &string(T_UTF8, b"x"))]))]), true);
+    add("san dns that reads as ipv4 / ipv6, rfc822 and uri that read as ip", OID_SAN, false, seq(&[gn(2, false, b"10.11.12.13"), gn(2, false, b"2001:db8::7"), gn(1, false, b"192.0.2.1"), gn(6, false, b"::1")]), false);
     add("san dns non-ascii", OID_SAN, false, seq(&[gn(2, false, "caf\u{e9}.example".as_bytes())]), true);
     add("san dns invalid utf8", OID_SAN, false, seq(&[gn(2, false, &[0xff, 0xfe])]), true);
     add("san empty", OID_SAN, false, seq(&[]), false);
@@ -95,6 +96,10 @@ pub fn name_variants() -> Vec<(String, Vec<u8>)> {
         ("name with the same attribute (type and value) twice, adjacent".into(), seq(&[set_of(&[atv(&[2, 5, 4, 10], T_UTF8, b"o")]), set_of(&[atv(&[2, 5, 4, 11], T_UTF8, b"Operations")]), set_of(&[atv(&[2, 5, 4, 11], T_UTF8, b"Operations")]), set_of(&[atv(&[2, 5, 4, 3], T_UTF8, b"c")])])),
         ("name with the same attribute (type and value) twice, apart".into(), seq(&[set_of(&[atv(&[2, 5, 4, 11], T_UTF8, b"u")]), set_of(&[atv(&[2, 5, 4, 3], T_UTF8, b"c")]), set_of(&[atv(&[2, 5, 4, 11], T_UTF8, b"u")])])),
         ("name with the same type and text in two string types".into(), seq(&[set_of(&[atv(&[2, 5, 4, 11], T_UTF8, b"u")]), set_of(&[atv(&[2, 5, 4, 11], T_PRINTABLE, b"u")])])),
+        ("name with BMP value starting with U+FEFF".into(), seq(&[set_of(&[atv(&[2, 5, 4, 3], T_BMP, &[0xfe, 0xff, 0, 0x41, 0, 0x42])])])),
+        ("name with Universal value starting with U+FEFF".into(), seq(&[set_of(&[atv(&[2, 5, 4, 10], T_UNIVERSALSTR, &[0, 0, 0xfe, 0xff, 0, 0, 0, 0x41])])])),
+        ("name with UTF8 value starting with U+FEFF".into(), seq(&[set_of(&[atv(&[2, 5, 4, 3], T_UTF8, "\u{feff}AB".as_bytes())])])),
+        ("name with BMP value U+FEFF in the middle and at the end".into(), seq(&[set_of(&[atv(&[2, 5, 4, 3], T_BMP, &[0, 0x41, 0xfe, 0xff, 0, 0x42, 0xfe, 0xff])])])),
         ("name with NumericString value".into(), seq(&[set_of(&[atv(&[2, 5, 4, 5], 18, b"12345")])])),
         ("name with invalid UTF8".into(), seq(&[set_of(&[atv(&[2, 5, 4, 3], T_UTF8, &[0xff, 0xfe])])])),
         ("name with BMP odd length".into(), seq(&[set_of(&[atv(&[2, 5, 4, 3], T_BMP, &[0, 65, 0])])])),
@@ -126,6 +131,14 @@ pub fn off_alphabet_names() -> Vec<(String, Vec<u8>)> {
         ("Teletex high bytes", T_TELETEX, vec![0xc4, 0x80]),
         ("BMP odd length", T_BMP, vec![0, 65, 0]),
         ("BMP lone surrogate", T_BMP, vec![0xd8, 0]),
+        ("BMP lone low surrogate dc00", T_BMP, vec![0, 0x41, 0xdc, 0]),
+        ("BMP lone low surrogate dfff", T_BMP, vec![0xdf, 0xff]),
+        ("BMP ffff", T_BMP, vec![0xff, 0xff]),
+        ("BMP leading feff (a character, not a mark)", T_BMP, vec![0xfe, 0xff, 0, 0x41]),
+        ("Universal dfff", T_UNIVERSALSTR, vec![0, 0, 0xdf, 0xff]),
+        ("Universal dc00", T_UNIVERSALSTR, vec![0, 0, 0xdc, 0]),
+        ("Universal 110000", T_UNIVERSALSTR, vec![0, 0x11, 0, 0]),
+        ("Universal leading feff (a character, not a mark)", T_UNIVERSALSTR, vec![0, 0, 0xfe, 0xff, 0, 0, 0, 0x41]),
         ("Universal length 3", T_UNIVERSALSTR, vec![0, 0, 65]),
         ("Universal surrogate", T_UNIVERSALSTR, vec![0, 0, 0xd8, 0]),
         ("UTF8 overlong", T_UTF8, vec![0xc0, 0x80]),
